@@ -5,6 +5,7 @@ import (
 
 	"github.com/bronlabs/errs-go/errs"
 
+	"github.com/bronlabs/bron-crypto/pkg/base/curves"
 	"github.com/bronlabs/bron-crypto/pkg/base/serde"
 )
 
@@ -40,6 +41,9 @@ func (fe *FpFieldElement) UnmarshalCBOR(data []byte) error {
 	if err != nil {
 		return errs.Wrap(err).WithMessage("failed to unmarshal base field element")
 	}
+	if dto == nil {
+		return curves.ErrSerialisation.WithMessage("FpFieldElement DTO is nil")
+	}
 
 	bfe, err := newFpField().FromBytes(dto.FieldBytes)
 	if err != nil {
@@ -64,6 +68,9 @@ func (fe *FqFieldElement) UnmarshalCBOR(data []byte) error {
 	dto, err := serde.UnmarshalCBOR[*fqFieldElementDTO](data)
 	if err != nil {
 		return errs.Wrap(err).WithMessage("failed to unmarshal scalar")
+	}
+	if dto == nil {
+		return curves.ErrSerialisation.WithMessage("FqFieldElement DTO is nil")
 	}
 
 	s, err := newFqField().FromBytes(dto.FieldBytes)
@@ -90,6 +97,9 @@ func (p *PallasPoint) UnmarshalCBOR(data []byte) error {
 	if err != nil {
 		return errs.Wrap(err).WithMessage("failed to unmarshal point")
 	}
+	if dto == nil {
+		return curves.ErrSerialisation.WithMessage("PallasPoint DTO is nil")
+	}
 
 	pp, err := NewPallasCurve().FromCompressed(dto.AffineCompressedBytes)
 	if err != nil {
@@ -114,6 +124,9 @@ func (p *VestaPoint) UnmarshalCBOR(data []byte) error {
 	dto, err := serde.UnmarshalCBOR[*vestaPointDTO](data)
 	if err != nil {
 		return errs.Wrap(err).WithMessage("failed to unmarshal point")
+	}
+	if dto == nil {
+		return curves.ErrSerialisation.WithMessage("VestaPoint DTO is nil")
 	}
 
 	pp, err := NewVestaCurve().FromCompressed(dto.AffineCompressedBytes)
